@@ -19,6 +19,15 @@ WITNESSES = [
 RULES = ["LEFT_PARENTHESIS", "RIGHT_PARENTHESIS", "QUOTED_STRING", "OP", "BOOLOP", "IN", "NOT", "VARIABLE", "WS", "END"]
 
 
+MARKER_PARSE_THEOREMS = [
+    "Src.process_env_var_translated", "Src.process_env_var_eq_model", "Src.process_python_str_translated",
+    "Src.process_python_str_eq_model", "Src._parse_marker_var_translated", "Src._parse_marker_var_agrees",
+    "Src._parse_marker_op_translated", "Src._parse_marker_op_agrees", "Src._parse_marker_item_translated",
+    "Src._parse_marker_item_agrees", "Src._parse_marker_atom_translated", "Src._parse_marker_translated",
+    "Src._parse_marker_agrees", "Src._parse_full_marker_translated", "Src.parse_marker_translated", "Src.parse_marker_eq_model",
+    "Src._parse_marker_fuel_agrees", "Src.Fuel.parse_ne_fuel", "Src.parse_marker_eq_model'"]
+
+
 class C07(Prop):
     id = "C07"
     lean_modules = ["PkgProofs.Props.C07", "PkgProofs.Props.C07Layout"]
@@ -189,4 +198,21 @@ def _outcome(m, env):
         return "exc " + type(e).__name__
 
 
-PROP = C07()
+from srccall import with_src  # noqa: E402
+
+# translated source: the evaluation functions of markers.py are proved equal to the model functions the theorems are about
+# (Mk.evalOp / normalize / lookupEnv / evalMarkers / buildEnv+evaluate); Specifier(...) / canonicalize_name /
+# default_environment enter through an oracle, as in the model (Mk.Ext).  The marker grammar's recursive-descent
+# functions (_parser.py) are proved to agree with Mk.parse… (PkgProofs/Props/Src/MarkerParse.lean).
+PROP = with_src(C07(), share=10, functions=[
+                    "_eval_op", "_normalize", "_get_env", "_evaluate_markers", "_repair_python_full_version",
+                    "format_full_version", "Marker.evaluate",
+                    "process_env_var", "process_python_str", "_parse_marker_var", "_parse_marker_op", "_parse_marker_item",
+                    "_parse_marker_atom", "_parse_marker", "_parse_full_marker", "parse_marker"],
+                module=["PkgProofs.Props.Src.MarkerEval", "PkgProofs.Props.Src.MarkerParse"],
+                theorems=["Src._eval_op_translated", "Src._eval_op_eq_model", "Src._normalize_translated", "Src._normalize_eq_model",
+                          "Src._get_env_translated", "Src._get_env_eq_model",
+                          "Src._evaluate_markers_translated", "Src._evaluate_markers_eq_model",
+                          "Src._repair_python_full_version_translated", "Src._repair_python_full_version_eq_model",
+                          "Src.format_full_version_translated", "Src.format_full_version_eq_model",
+                          "Src.Marker.evaluate_translated", "Src.Marker.evaluate_eq_model"] + MARKER_PARSE_THEOREMS)
